@@ -137,7 +137,14 @@ pub fn load_zoo() -> Vec<ZooKey> {
             KeyFormat::Pkcs1
         };
         let der = std::fs::read(dir.join(&n)).unwrap();
-        let pkey = PKey::private_key_from_der(&der).expect("fixture key parses with OpenSSL");
+        // a bare ECPrivateKey (no curve, no public key) says nothing about its curve: the independent derivation of its
+        // public key comes from the full key it was cut from (<curve>_1.sec1.der, the same scalar)
+        let pkey = if n.contains("bare") {
+            let full = std::fs::read(dir.join(format!("{}_1.sec1.der", n.split('_').next().unwrap()))).unwrap();
+            PKey::private_key_from_der(&full).expect("sibling of a bare key parses with OpenSSL")
+        } else {
+            PKey::private_key_from_der(&der).expect("fixture key parses with OpenSSL")
+        };
         let spki = pkey.public_key_to_der().unwrap();
         let raw_pub = spki_raw_pub(&spki);
         out.push(ZooKey { name: n, kind, format, der, pkey, spki, raw_pub });
